@@ -63,6 +63,15 @@ Theorem C03_input_front : forall feat instr st st', execute feat instr st = Runn
 Proof. exact VmInput.execute_input. Qed.
 Print Assumptions C03_input_front.
 
+(** Exactly: GETC (vector x20) and IN (x23) take one byte — the first — and need one to be there;
+    every other instruction leaves the input alone. *)
+Theorem C03_input_exact : forall feat instr st st', execute feat instr st = Running st' ->
+  if (15 <=? shr instr 12) && VmInput.reads_input (band instr 255)
+  then s_inp st' = tl (s_inp st) /\ s_inp st <> nil
+  else s_inp st' = s_inp st.
+Proof. exact VmInput.execute_input_exact. Qed.
+Print Assumptions C03_input_exact.
+
 (** Non-vacuity: a concrete loaded image (three `add r0 r0 #1`, HALT, at x3000) is well-formed (the
     hypothesis of C03_run / C03_load_wf) and runs to the normal end with R0 = 3, PC = xFFFF. *)
 Example C03_nonvacuous :
